@@ -50,15 +50,32 @@ impl SO3State {
     /// assert!((mag - 1.0).abs() < 1e-9);
     /// ```
     pub fn normalise(&mut self) -> Result<Self, StateError> {
-        let norm = (self.x.powi(2) + self.y.powi(2) + self.z.powi(2) + self.w.powi(2)).sqrt();
-        if norm < 1e-9 {
+        // Scale by the largest component first so that squaring can neither overflow (huge
+        // quaternions used to normalise to all zeros) nor underflow.
+        let scale = self
+            .x
+            .abs()
+            .max(self.y.abs())
+            .max(self.z.abs())
+            .max(self.w.abs());
+        if scale == 0.0 {
+            return Err(StateError::ZeroMagnitude);
+        }
+        let (x, y, z, w) = (
+            self.x / scale,
+            self.y / scale,
+            self.z / scale,
+            self.w / scale,
+        );
+        let norm = (x.powi(2) + y.powi(2) + z.powi(2) + w.powi(2)).sqrt();
+        if scale * norm < 1e-9 {
             Err(StateError::ZeroMagnitude)
         } else {
             Ok(SO3State {
-                x: self.x / norm,
-                y: self.y / norm,
-                z: self.z / norm,
-                w: self.w / norm,
+                x: x / norm,
+                y: y / norm,
+                z: z / norm,
+                w: w / norm,
             })
         }
     }
